@@ -49,6 +49,8 @@ CFG = {
     "q-two-sw-w0": ("{1, 2}", "two", "sw", "two", 1, 0, "TRUE", "{2}", 2, W0, 0),
     "q-stream-two": ("{1, 2}", "stream", "two", "two", 0, 1, "FALSE", "{1}", 2, ALL, 1),
     "q-sw-nsw-b1": ("{1, 2}", "sw", "nsw", "two", 1, 1, "TRUE", "{1}", 2, ALL, 0),
+    # calls that end by a quorum from other nodes while their request here is pending
+    "two-two-abandon": ("{1, 2}", "two", "two", "two", 0, 1, "FALSE", "{1}", 3, ALL, 1, "FALSE", "TRUE"),
     # the same without crash and Close (quick tier)
     "stream-foreign-q": ("{1, 2}", "stream", "two", "two", 0, 1, "FALSE", "{1}", 2, ALL, 0, "TRUE"),
 }
@@ -57,7 +59,8 @@ DESIGN = {
               "C09": ["q-two-two-crash", "q-stream-two", "three-two-nocrash", "stream-foreign-q"],
               "C10": ["q-two-two-crash", "q-sw-nsw-b1"], "C12": ["q-two-two-close", "q-sw-nsw-b1"]},
     "thorough": {"C08": ["two-sw-w0", "two-two-w0", "nsw-two-w0", "two-two-b1", "three-b0"],
-                 "C09": ["two-two-b0", "stream-two-b0", "stream-stream-b1", "three-b0", "three-two-nocrash", "stream-foreign"],
+                 "C09": ["two-two-b0", "stream-two-b0", "stream-stream-b1", "three-b0", "three-two-nocrash", "stream-foreign",
+                         "two-two-abandon"],
                  "C10": ["two-two-b0", "two-two-b1", "three-b0"],
                  "C12": ["two-two-b0", "two-two-b1", "stream-two-b0", "sw-nsw-b1", "three-b1-close"]},
 }
@@ -75,10 +78,11 @@ def channel_cfg(name, devs):
     reqs, k1, k2, k3, sb, win, close, cancel, me, invs = CFG[name][:10]
     crash = CFG[name][10] if len(CFG[name]) > 10 else 1
     foreign = CFG[name][11] if len(CFG[name]) > 11 else "FALSE"
+    abandons = CFG[name][12] if len(CFG[name]) > 12 else "FALSE"
     return ("SPECIFICATION Spec\nCONSTANTS\n  Reqs = %s\n  Kind <- KindOf\n  K1 = \"%s\"\n  K2 = \"%s\"\n  K3 = \"%s\"\n"
             "  SendBuf = %d\n  MaxEpoch = %d\n  MaxCrash = %d\n  CanCancel = %s\n  WithClose = %s\n  ChanCap = 1\n"
-            "  MaxItems = 2\n  Window = %d\n  Foreign = %s\n  Devs = %s\nINVARIANTS %s\nCHECK_DEADLOCK FALSE\n"
-            % (reqs, k1, k2, k3, sb, me, crash, cancel, close, win, foreign, tla_set(devs), invs))
+            "  MaxItems = 2\n  Window = %d\n  Foreign = %s\n  Abandons = %s\n  Devs = %s\nINVARIANTS %s\nCHECK_DEADLOCK FALSE\n"
+            % (reqs, k1, k2, k3, sb, me, crash, cancel, close, win, foreign, abandons, tla_set(devs), invs))
 
 
 def validate_life(trace, work):
